@@ -660,6 +660,18 @@ def join_states(s1, s2, widen_with=None, thresholds=None):
                     n.facts.setdefault((nb, ni), 0)
                     if n.facts[(nb, ni)] > 0:
                         n.facts[(nb, ni)] = 0
+        # heap vector (Vec cell group): length <= initialised prefix <= capacity
+        P = key[:-1]
+        for sib, below in ((P + (("g", "vlen"),), True), (P + (("g", "vcap"),), False)):
+            a, b, nb = s1.env.get(sib), s2.env.get(sib), n.env.get(sib)
+            if not (is_int(a) and is_int(b) and is_int(nb)) or nb == ni:
+                continue
+            if below and s1.diff_le(a, i1, 0) and s2.diff_le(b, i2, 0):
+                if n.facts.get((nb, ni), 1) > 0:
+                    n.facts[(nb, ni)] = 0
+            if (not below) and s1.diff_le(i1, a, 0) and s2.diff_le(i2, b, 0):
+                if n.facts.get((ni, nb), 1) > 0:
+                    n.facts[(ni, nb)] = 0
     # facts, Houdini-style: a candidate is a fact of either state over atoms stored in cells; it survives if
     # the other state entails it (intervals, facts, definitions)
     def _cell(st, key):
